@@ -278,8 +278,18 @@ func runC18(c *core.Ctx, ck *Check) {
 			} else {
 				w.Count("rejected:range", 1)
 			}
+			// probes: pool members and every version-like token of the range text itself (probes that sit
+			// exactly on a bound, textually: identity operators and equality paths)
+			probes := []string{}
 			for x := 0; x < 6; x++ {
-				probe := p.Strs[r.IntN(len(p.Strs))]
+				probes = append(probes, p.Strs[r.IntN(len(p.Strs))])
+			}
+			for _, tok := range strings.FieldsFunc(rs, func(c rune) bool { return strings.ContainsRune(" ,|<>=!~^()[]@*", c) }) {
+				if v, err, pn := e.SafeNewVersion(tok); accepted(isNilVer(v), err, pn) {
+					probes = append(probes, tok)
+				}
+			}
+			for _, probe := range probes {
 				w.Count("evaluations", 2)
 				rep(evalC18(c, e, "r-roundtrip", []string{rs, probe}))
 				ps, pat := pad(rs)
